@@ -6,6 +6,9 @@ import WK.Model.ReplJudge
   implementation's results only:
    * an install whose id is below the highest id the owner has adopted must not succeed nor
      become the owner's authority (`viol:older-authority-installed`);
+   * an owner never becomes writable under an authority older than one whose entries its own
+     durable log already holds — the only defence once a restart has erased the owner's memory
+     (`viol:installed-below-durable-tail`);
    * a fenced install never succeeds (`viol:fenced-install-ok`);
    * a successful install reports the requested id (`viol:install-authority-mismatch`);
    * a receipt is only returned for Expected = the id of the owner's last
@@ -27,6 +30,11 @@ def judge (j : JState) (op : Op) (cur : Obs) : String :=
     else if lower && (cur.isOk || ((cur.leader i).status == "present" && decide ((cur.leader i).a = a.id))) then
       -- the owner reports the older id as its authority afterwards (or even answered ok)
       "viol:older-authority-installed"
+    else if cur.isOk && !((j.prev.leader i).status == "present" && (j.prev.leader i).ready && decide ((j.prev.leader i).a = a.id))
+        && (cur.store i).entries.any (fun e => cmpAuth e.a a.id == .gt) then
+      -- the owner became writable under an authority OLDER than one that already wrote into its own
+      -- durable log (e.g. same epoch and term, older fence version, installed after a restart)
+      "viol:installed-below-durable-tail"
     else if cur.isOk then
       (match cur.res with
        | ["ok", ra, _, _] => if parseAuth ra == some a.id then "ok" else "viol:install-authority-mismatch"
